@@ -215,7 +215,11 @@ func c12ParseStmt(st fsStmt) (c12Parsed, error) {
 			for _, a := range g {
 				vals := args[k : k+a.n]
 				k += a.n
-				if a.op == "IN" {
+				if a.op == "ISNULL" {
+					for i := range branches {
+						branches[i] = append(branches[i], a.col+"=NULL")
+					}
+				} else if a.op == "IN" {
 					var nb [][]string
 					for _, b := range branches {
 						for _, v := range vals {
